@@ -29,6 +29,12 @@ def check(prog, run):
     from ..effects import shared_state_rule
     reach_ = sorted(q for q in prog.reachable([prog.func(FN).qual, prog.func("functions.fdd.SD_PreGER").qual]) if q in prog.functions and not q.startswith("pyoma2.functions.plot"))
     shared_state_rule(prog, run, "R-stateless", reach_, "the estimate depends on which estimator was used in the calls before")
+    # the estimate is a function of the records handed in: nothing is written into (a view of) them - a second estimate from the same arrays
+    # is the same estimate, and when the reference records are rows of the data they are not windowed twice
+    run.rule("R-inputs-intact", "SD_est and what it calls change none of their array arguments in place (stores, augmented assignments, out=, in-place methods, through "
+             "views - reshape, slices - and through helpers that hand back their argument)", 1)
+    from . import C15
+    C15.shared_data(prog, run.under({"R-shared-data": "R-inputs-intact"}), sorted(q for q in prog.reachable([prog.func(FN).qual]) if q in prog.functions and not q.startswith("pyoma2.functions.plot")))
     I = Interp(prog)
     fn = I.fn(FN)
     seen = set()
